@@ -33,7 +33,7 @@ GROUPS.append(G("sub_CompressLine_short", "harness/C19/h_asmsub.c", "h_CompressL
                 bounded="lines of at most 6 characters without backslash, one-letter parameter name, case-sensitive"))
 TRUSTED_BASE = ["as_dynstr_copy_c_str / ExpandLine / local-handle stubs log their arguments"]
 ASSUMPTIONS = []
-NOT_COVERED = ["ExpandMacro (argument binding)", "ReadMacro", "WHILE_Processor", "INCLUDE/BINCLUDE", "token substitution in asmsub.c"]
+NOT_COVERED = ["ReadMacro", "WHILE_Processor", "INCLUDE/BINCLUDE", "token substitution in asmsub.c"]
 EXPLANATION = ("Kernel only: contracts decide the per-call stepping facts (which body line, which parameter group, when the construct ends, "
                "which source line is current); the transparency statement itself is a relation between two programs and is not decided.")
 
@@ -42,6 +42,6 @@ MANIFEST = dict(
     text="Contracts on the stepping kernel of repetition constructs in as.c: REPT_Processor and IRP_Processor deliver body line LineZ, substitute "
          "exactly the current parameter group as tokens 1..n, advance (iteration, line) lexicographically and end exactly after the last line of "
          "the last iteration / parameter group, opening one local symbol space per iteration. Transparency itself (equality of two programs' "
-         "outputs) is not decidable by a per-call contract; argument binding, token substitution and INCLUDE are named unverified. Added: EXITM inside IRP (IRP_Cleanup safe when run twice), balanced local symbol spaces of a macro level (none for an empty body), IRPN group size, SHIFT inside nested repetitions, the whole-name rule of parameter substitution (IsValidParameterName for every line; CompressLine bounded).",
-    note="Bounded: body <= 3 lines, <= 4 parameters, IRPN group <= 2 (iteration counts unbounded). Trusted: logging stubs for the string helpers.",
+         "outputs) is not decidable by a per-call contract; token substitution in the body text and INCLUDE are named unverified. Added: EXITM inside IRP (IRP_Cleanup safe when run twice), balanced local symbol spaces of a macro level (none for an empty body), IRPN group size, SHIFT inside nested repetitions, the whole-name rule of parameter substitution (IsValidParameterName for every line; CompressLine bounded); ExpandMacro (positional, keyword, default and excess arguments, ALLARGS, ARGCOUNT: 12 groups over concrete list shapes) and ComputeMacroStrings (ALLARGS/ARGCOUNT after SHIFT).",
+    note="Bounded: body <= 3 lines, <= 4 parameters, IRPN group <= 2 (iteration counts unbounded); macro calls with <= 3 arguments of <= 3 characters and <= 2 formal parameters. Trusted: logging stubs for the string helpers.",
 )
